@@ -16,7 +16,8 @@ B = h.bounds(
     quick=dict(SHAPES=6, NCTX=4, GV=2, NKEYS=4, ASH=6, DSH=2),
     thorough=dict(SHAPES=12, NCTX=6, GV=3, NKEYS=5, ASH=8, DSH=3),
 )
-LEAVES = ["'a'", "'a.b'", "int", "str", "total predicate", "raising predicate"]
+LEAVES = ["'a'", "'a.b'", "int", "str", "total predicate", "raising predicate",
+          "SelectContext('a', predicate) - a selector object used as a leaf"]
 SHAPES = ["leaf", "[l0, l1]", "(l0, l1)", "Not(l0)", "[(l0, l1), l2]", "([l0, l1], Not(l2))",
           "Not([l0, l1])", "Not((l0, l1))", "[Not(l0, roe), l1]", "(Selector(l0, roe=False), l1, [l2])",
           "([l0, l1],)", "[(l0, l1)]"]
@@ -56,7 +57,11 @@ def raising(v):
     raise Boom()
 
 
-LEAF = ["a", "a.b", int, str, total, raising]
+def _one(v):
+    return True if (v == 1 or v is None) else False
+
+
+LEAF = ["a", "a.b", int, str, total, raising, SelectContext("a", _one)]
 CTX = [None, {"a": 1}, {"a": {"b": 2}}, {"a": None}, {"a": "b"}, {"b": 1}]
 
 
@@ -77,6 +82,8 @@ def ref_leaf(i, value):
         return isinstance(data, str)
     if i == 4:
         return total(value)
+    if i == 6:
+        return "a" in ctx and _one(ctx["a"])
     return raising(value)
 
 
@@ -144,9 +151,9 @@ def check_selector(shape: int, l0: int, l1: int, l2: int, roe: bool, roe2: bool,
                    is_str: bool, x: int, c: int) -> bool:
     """
     pre: 0 <= shape < B.SHAPES
-    pre: 0 <= l0 <= 5 and 0 <= l1 <= 5 and 0 <= l2 <= 5
+    pre: 0 <= l0 <= 6 and 0 <= l1 <= 6 and 0 <= l2 <= 6
     pre: 0 <= c < B.NCTX
-    pre: h.in_shard(l0 + 6 * shape)
+    pre: h.in_shard(l0 + 7 * shape)
     post: _
     """
     shape = h.concrete(shape, 0, B.SHAPES - 1)
@@ -154,9 +161,9 @@ def check_selector(shape: int, l0: int, l1: int, l2: int, roe: bool, roe2: bool,
     if B.SHAPES == 6 and shape >= 4:
         shape = shape + 6
     # only the leaves / flags the shape uses are read (no useless forks)
-    l0 = h.concrete(l0, 0, 5)
-    l1 = h.concrete(l1, 0, 5) if shape not in (0, 3) else 0
-    l2 = h.concrete(l2, 0, 5) if shape in (4, 5, 9) else 0
+    l0 = h.concrete(l0, 0, 6)
+    l1 = h.concrete(l1, 0, 6) if shape not in (0, 3) else 0
+    l2 = h.concrete(l2, 0, 6) if shape in (4, 5, 9) else 0
     r1 = True if roe else False
     r2 = (True if roe2 else False) if shape in (5, 8) else True
     sel, ref = build(shape, l0, l1, l2, r1, r2)
@@ -203,10 +210,6 @@ def check_filter(shape: int, l0: int, l1: int, roe: bool, xs: List[int], c0: int
     return h.ok(got == want and sink.got == want and all([a is b for a, b in zip(got, want)]))
 
 
-def _one(v):
-    return True if (v == 1 or v is None) else False
-
-
 def _boom(v):
     raise Boom()
 
@@ -214,12 +217,14 @@ def _boom(v):
 def check_select_context(key: int, pred: int, roe: bool, c: int, x: int) -> bool:
     """
     pre: 0 <= key <= 3
-    pre: 0 <= pred <= 1
+    pre: 0 <= pred <= 2
     pre: 0 <= c < B.NCTX
     post: _
     """
     k = h.choose(["a", "a.b", ["a", "b"], "c"], key)
-    p = _one if pred == 0 else _boom
+    # the predicate is any callable: a function, a raising function, a class
+    # used as a callable (bool(subcontext))
+    p = _one if pred == 0 else (_boom if pred == 1 else bool)
     r = True if roe else False
     sel = SelectContext(k, p, raise_on_error=r)
     value = mkvalue(False, x, c)
@@ -240,6 +245,8 @@ def check_select_context(key: int, pred: int, roe: bool, c: int, x: int) -> bool
         return h.ok(got == ("ok", False))
     if pred == 1:
         return h.ok(got == (("raises",) if r else ("ok", False)))
+    if pred == 2:
+        return h.ok(got == ("ok", True if cur else False))
     return h.ok(got == ("ok", cur == 1 or cur is None))
 
 
@@ -355,14 +362,15 @@ def check_group_by(gmask: int, mmask: int, n: int, a0: int, d0: int, a1: int, d1
 
 
 CONDITIONS = [
-    dict(fn="check_selector", shards=(36, 72), budget=(90, 1200),
+    dict(fn="check_selector", shards=(42, 84), budget=(90, 1200),
          smoke=["check_selector(1, 0, 5, 0, False, True, False, 0, 1)",
                 "check_selector(3, 5, 0, 0, False, True, True, 0, 0)",
                 "check_selector(2, 2, 4, 0, True, True, False, 3, 2)"]),
     dict(fn="check_filter", shards=(5, 5), budget=(80, 900),
          smoke=["check_filter(1, 0, 4, True, [1, -2], 1, 0, 0)"]),
     dict(fn="check_select_context", budget=(60, 300),
-         smoke=["check_select_context(0, 0, True, 1, 5)", "check_select_context(1, 1, False, 2, 5)"]),
+         smoke=["check_select_context(0, 0, True, 1, 5)", "check_select_context(1, 1, False, 2, 5)",
+                "check_select_context(0, 2, True, 1, 5)", "check_select_context(0, 2, True, 3, 5)"]),
     dict(fn="check_group_by", shards=(32, 64), budget=(160, 1500),
          smoke=["check_group_by(2, 1, 2, 1, 0, 5, 0, 0, 0, False)", "check_group_by(1, 4, 2, 2, 0, 1, 0, 0, 0, False)",
                 "check_group_by(4, 1, 2, 2, 1, 2, 0, 0, 0, False)", "check_group_by(1, 4, 2, 1, 1, 5, 1, 0, 0, False)", "check_group_by(1, 0, 2, 1, 1, 5, 1, 0, 0, True)"]),
